@@ -88,6 +88,7 @@ func (c02) Gen(r *rand.Rand, tier string, idx int) *core.Plan {
 	w["callErr"] = healthy(2, 90)
 	w["crit"] = healthy(3, 50)
 	w["warm"] = int64(core.Pick(r, 0, 0, 0, 1, 2, 3))
+	w["rival"] = int64(r.IntN(2))
 	if w["crit"] != 0 && r.IntN(2) == 0 {
 		w["critKey"] = int64(1 + r.IntN(len(c02CritKeys)-1))
 	}
@@ -173,6 +174,13 @@ func (l c02) Exec(env *core.Env) *core.Result {
 		if err != nil {
 			res.Violate("HARNESS/sign", "", "%v", err)
 			return
+		}
+		// the neighbour's signature (see "rival" below): same signer, same plugin, no further demands
+		var rivalSig []byte
+		if w["rival"] == 1 && plug != 0 {
+			so2 := so
+			so2.ExtAttrs = []signature.Attribute{{Key: "io.cncf.notary.verificationPlugin", Critical: true, Value: c02Plugin}}
+			rivalSig, _ = world.SignPayload(chain, world.PayloadFor(desc), so2)
 		}
 		// time passes: expiry and the leaf's validity may end
 		if w["expiry"] == 2 || w["certTime"] == 1 {
@@ -366,6 +374,24 @@ func (l c02) Exec(env *core.Env) *core.Result {
 				val.Calls, val.Legacy = nil, 0
 				rt.Sleep(3 * time.Minute)
 				res.Probe("verified_before_with_another_plugin_build_installed")
+			}
+			if w["rival"] == 1 && sp != nil && plug >= 5 && plug <= 7 && pluginProblem && rivalSig != nil {
+				// Another goroutine of the host is verifying, on the same verifier, a signature that names the same
+				// plugin and demands nothing the installed build cannot satisfy - and it is already inside (at the
+				// plugin's metadata request) when the verification under study begins. The installed plugin does not
+				// satisfy what THIS signature demands: it must fail whatever the neighbour's call finds.
+				g := &rivalGate{}
+				sp.Gate = g.hold
+				var e2 error
+				concurrently(sim, g, func() { verifyEntry(ctx, v, entryOf(w), desc, rivalSig, so.MediaType) },
+					func() { _, e2 = verifyEntry(ctx, v, entryOf(w), desc, sig, so.MediaType) })
+				sp.Gate = nil
+				res.Probe("verified_while_a_neighbour_call_for_the_same_plugin_was_in_flight")
+				if e2 == nil {
+					res.Violate("C02/accepted-despite-plugin-problem", fmt.Sprintf("%s%v | %s | neighbour call in flight", levelName, override, situation), "the installed plugin does not satisfy what the signature demands, yet verification succeeded while another verification naming the same plugin was in flight")
+				}
+				val.Calls, val.Legacy = nil, 0
+				sp.Requests, sp.MetaCalls = nil, 0
 			}
 			outcome, verr := verifyEntry(ctx, v, entryOf(w), desc, sig, so.MediaType)
 			accepted[levelName] = verr == nil
